@@ -105,6 +105,15 @@ func (s *Sim) checkReconcile(rec *Reconcile) {
 	if v.deleting {
 		s.count("probe.deleting_skip")
 	}
+	if rec.CtlCalled && rec.CtlSet != nil && rec.CtlSet.Annotations[annPaused] == "true" {
+		// the pause gate looked at one version of the set and the control logic was
+		// handed another, paused one
+		for _, c := range rec.Calls[rec.CtlCallIdx:] {
+			if c.IsWrite() {
+				s.violate("C11", "C11.paused-write", "control-on-paused-snapshot", fmt.Sprintf("the control logic of %s ran on a snapshot that carries paused-reconcile=true and issued %s", cs.Name, c))
+			}
+		}
+	}
 	s.checkPreControl(v)
 	if !rec.CtlCalled {
 		return
@@ -340,6 +349,11 @@ func (s *Sim) checkPreControl(v *recView) {
 						why = "the uncached read did not confirm the set (error, other UID or deletionTimestamp)"
 					}
 					s.violate("C10", "C10.adopt-without-fresh-read", "pod", fmt.Sprintf("adoption of pod %s: %s", c.Name, why))
+					if c.SetDeletingAtCall && c.Applied {
+						// and the set did carry a deletion timestamp: a set being deleted adopted a pod
+						// because nothing confirmed the opposite
+						s.violate("C11", "C11.deleting-adoption", "pod-adopt-unconfirmed", fmt.Sprintf("set %s carries a deletion timestamp in the API and adopted pod %s; %s", cs.Name, c.Name, why))
+					}
 				}
 			} else {
 				s.count("probe.release")
@@ -1215,6 +1229,21 @@ func (s *Sim) checkRevisions(v *recView) {
 			s.violate("C08", "C08.non-template-edit", "changed", fmt.Sprintf("template of %s unchanged but updateRevision went %s -> %s", set.Name, last.rev, upd.Name))
 		}
 	}
+	if _, seen := s.oracles.lastUpdRev[key]; !seen {
+		// first reconcile of a set that helper.Upgrade made out of a built-in one: the
+		// built-in controller's record of the (unchanged) template is the previous
+		// update revision; recording the template again under another name while that
+		// record still exists is a revision without a template edit
+		if mig := s.oracles.migrated[set.Name]; mig != nil && mig.tmpl == v.tmpl && mig.updName != upd.Name {
+			if old, exists := Peek[*appsv1.ControllerRevision](s.Store, KRev, set.Namespace, mig.updName); exists && string(old.Data.Raw) == mig.revData[mig.updName] {
+				for _, c := range rec.Calls[rec.CtlCallIdx:] {
+					if c.Kind == KRev && c.Verb == "create" && c.Err == nil && c.Out != nil && c.Out.GetName() == upd.Name {
+						s.violate("C08", "C08.non-template-edit", "after-migration", fmt.Sprintf("template of the migrated set %s unchanged, its record %s still exists, but the controller recorded it again as %s", set.Name, mig.updName, upd.Name))
+					}
+				}
+			}
+		}
+	}
 	s.oracles.lastUpdRev[key] = updRevObs{tmpl: v.tmpl, rev: upd.Name, seq: s.seq}
 	// collision: a create that hit a different revision under the same name must bump collisionCount
 	for i, c := range rec.Calls[rec.CtlCallIdx:] {
@@ -1320,6 +1349,26 @@ func (s *Sim) checkTruncation(v *recView) {
 		if live[c.Name] {
 			s.violate("C13", "C13.delete-live", "delete", fmt.Sprintf("deleted revision %s which is current, update or used by a pod", c.Name))
 			continue
+		}
+		// a pod of the set at a desired ordinal that exists in the API but is missing
+		// from the pod list this reconcile worked on: the create that such a pass
+		// attempts for that ordinal is answered AlreadyExists, and a pass that goes on
+		// to trim history anyway trims on a list it knows to be incomplete
+		for _, pn := range sortedKeys(c.LivePodRevs) {
+			if c.LivePodRevs[pn] != c.Name || v.byName[pn] != nil {
+				continue
+			}
+			if parent, ord, ok := podOrdinal(pn); ok && parent == set.Name && v.D[ord] {
+				sawExists := false
+				for _, pc := range rec.Calls[rec.CtlCallIdx:] {
+					if pc.Kind == KPod && pc.Verb == "create" && pc.Name == pn && pc.Err != nil && apierrors.IsAlreadyExists(pc.Err) {
+						sawExists = true
+					}
+				}
+				if sawExists {
+					s.violate("C13", "C13.delete-live", "pod-known-to-exist", fmt.Sprintf("deleted revision %s which pod %s runs; the pod was missing from the cached list, but this reconcile had learned that it exists (its create was answered AlreadyExists)", c.Name, pn))
+				}
+			}
 		}
 		i++
 		if len(unused) <= limit {
